@@ -68,15 +68,15 @@ Words ==
              "plus", "is", "dan", "katten", "de", "huis", "biljoen", "miljoenen", "miljarden">> ]
 
 \* core alphabet for exhaustive short texts (C09): two small numbers, an ambiguous / zero word, a linking word, an ordinary
-\* word, a small ordinal, a number that is never "small", the conjunction
+\* word, a small ordinal, a number that is never "small", the conjunction, a token made of a digit
 CoreWords ==
-  [ en |-> <<"one", "two", "o", "uh", "apples", "first", "twenty", "and">>,
-    fr |-> <<"un", "deux", "neuf", "alors", "chats", "premier", "vingt", "et">>,
-    es |-> <<"uno", "dos", "cero", "mas", "gatos", "primero", "veinte", "y">>,
-    pt |-> <<"um", "dois", "zero", "mais", "gatos", "primeiro", "vinte", "e">>,
-    it |-> <<"uno", "due", "zero", "poi", "gatti", "primo", "venti", "e">>,
-    de |-> <<"eins", "zwei", "null", "also", "katzen", "erste", "zwanzig", "und">>,
-    nl |-> <<"een", "twee", "nul", "dan", "katten", "eerste", "twintig", "en">> ]
+  [ en |-> <<"one", "two", "o", "uh", "apples", "first", "twenty", "and", "5">>,
+    fr |-> <<"un", "deux", "neuf", "alors", "chats", "premier", "vingt", "et", "5">>,
+    es |-> <<"uno", "dos", "cero", "mas", "gatos", "primero", "veinte", "y", "5">>,
+    pt |-> <<"um", "dois", "zero", "mais", "gatos", "primeiro", "vinte", "e", "5">>,
+    it |-> <<"uno", "due", "zero", "poi", "gatti", "primo", "venti", "e", "5">>,
+    de |-> <<"eins", "zwei", "null", "also", "katzen", "erste", "zwanzig", "und", "5">>,
+    nl |-> <<"een", "twee", "nul", "dan", "katten", "eerste", "twintig", "en", "5">> ]
 
 \* separators between words of a generated text
 Seps == <<" ", ", ", ". ", "-", "; ", " - ", "  ", "! ", "- ", " -", "' ", "-, ", ",", ":">>
